@@ -418,6 +418,19 @@ def r2_implicit(ctx):
                     continue
                 nk += 1
                 ok = has(INk[nd.id], 'NotNone', tgt) or '*' in _caught(fk, x) or 'TypeError' in _caught(fk, x)
+                if not ok:
+                    # guarded inside the expression itself:  v[:6] if v else None   /   v and v[:6]
+                    from ..cfg import facts_from_test
+                    child = x
+                    par = A.parent(x)
+                    while par is not None and isinstance(par, ast.expr) and not ok:
+                        if isinstance(par, ast.IfExp) and child is not par.test:
+                            ok = ('NotNone', tgt) in facts_from_test(par.test, child is par.body)
+                        if isinstance(par, ast.BoolOp) and isinstance(par.op, ast.And) and child in par.values:
+                            for prev in par.values[:par.values.index(child)]:
+                                ok = ok or ('NotNone', tgt) in facts_from_test(prev, True)
+                        child = par
+                        par = A.parent(par)
                 yield Ob(km('(k) %s:%s %s' % (mod, qual, norm(x, 40))), ok, ctx.floc(fk, x),
                          '' if ok else '`%s` may still be None here (no group seen yet, or the element is absent): TypeError escapes the entry point' % tgt)
         if mod == 'x12n_document' and nk < 1:
